@@ -175,13 +175,25 @@ def _iter_params(parent_node):
     return (n for n in parent_node.children if n.type == 'param' or n.type == 'operator')
 
 
+def _is_string_expr(node):
+    """
+    A string literal, possibly written as implicitly concatenated literals
+    and possibly in parentheses (what a docstring may look like).
+    """
+    while node.type == 'atom' and len(node.children) == 3 and node.children[0] == '(':
+        node = node.children[1]
+    if node.type == 'strings':
+        return all(child.type == 'string' for child in node.children)
+    return node.type == 'string'
+
+
 def _is_future_import_first(import_from):
     """
     Checks if the import is the first statement of a file.
     """
     found_docstring = False
     for stmt in _iter_stmts(import_from.get_root_node()):
-        if stmt.type == 'string' and not found_docstring:
+        if _is_string_expr(stmt) and not found_docstring:
             continue
         found_docstring = True
 
